@@ -35,6 +35,7 @@ def variants_for(inst, rng):
          ('split_records', {'split_records': 1 + rng.randint(0, 3)}),
          ('split_records_shuffled', {'split_records': 1 + rng.randint(0, 3), 'shuffle': 1 + rng.randint(0, 10 ** 6)}),
          ('eligibility_indexed_by_geo', {'elig_geo_as_index': True}),
+         ('table_rows_reversed', {'reverse_table_rows': True}),
          ('date_by_date_varying_geo_order', {'date_major': True, 'shuffle': 1 + rng.randint(0, 10 ** 6)}),
          ('scaled_tiny', {'scale': 2.0 ** -rng.choice([10, 14, 16])}),
          ('scaled_huge', {'scale': 2.0 ** rng.choice([10, 14])}),
